@@ -69,6 +69,21 @@ pub proof fn lemma_parts(p: u16, t: u16)
     assert((t == 0o040000 || t == 0o100000 || t == 0o120000) ==> (p | t) & 0o7777 == p & 0o7777) by (bit_vector);
     assert(p & 0o170000 == 0 && (t == 0o040000 || t == 0o100000 || t == 0o120000) ==> t & p == 0) by (bit_vector);
 }
+pub mod bitcomm {
+use vstd::prelude::*;
+/// bit operations commute (so that `MASK & x` is judged like `x & MASK`: a semantics-preserving edit must not fail the proofs)
+pub broadcast proof fn lemma_and_comm(a: u16, b: u16)
+    ensures #[trigger] (a & b) == b & a,
+{
+    assert(a & b == b & a) by (bit_vector);
+}
+pub broadcast proof fn lemma_or_comm(a: u16, b: u16)
+    ensures #[trigger] (a | b) == b | a,
+{
+    assert(a | b == b | a) by (bit_vector);
+}
+}
+broadcast use bitcomm::lemma_and_comm, bitcomm::lemma_or_comm;
 impl FileMode {
 ''', 'C18 specification'),
     Fn(TYPES, 'from', impl='impl From<u16> for FileMode',
